@@ -271,7 +271,14 @@ func calculateSystemConfigMerged(oldCfg configuration.SystemCfg, configMap *core
 		clusterCfgCopy := mergedCfg.ClusterStrategy.DeepCopy()
 		if nodeStrategy.SystemStrategy != nil {
 			mergedStrategyInterface, _ := util.MergeCfg(clusterCfgCopy, nodeStrategy.SystemStrategy)
-			mergedCfg.NodeStrategies[index].SystemStrategy = mergedStrategyInterface.(*slov1alpha1.SystemStrategy)
+			mergedNodeStrategy := mergedStrategyInterface.(*slov1alpha1.SystemStrategy)
+			// TotalNetworkBandwidth is a non-pointer Quantity which encoding/json never omits, so a node
+			// strategy that does not set it is marshaled as "0" by MergeCfg and would overwrite the
+			// cluster-wide value. Treat zero as unset and keep the cluster-wide bandwidth.
+			if nodeStrategy.SystemStrategy.TotalNetworkBandwidth.IsZero() {
+				mergedNodeStrategy.TotalNetworkBandwidth = mergedCfg.ClusterStrategy.TotalNetworkBandwidth.DeepCopy()
+			}
+			mergedCfg.NodeStrategies[index].SystemStrategy = mergedNodeStrategy
 		} else {
 			mergedCfg.NodeStrategies[index].SystemStrategy = clusterCfgCopy
 		}
